@@ -1,56 +1,15 @@
 /-
   Driver/Main.lean — line protocol between the Python harness and the executable model.
-  One request per line, one canonical answer per line.
+  One request per line, one canonical answer per line.  Each domain has its own file
+  Driver/<Domain>.lean exporting `handle : List String → Option String` (none = not mine);
+  register it in `handlers` below.
 -/
-import DxModel.Graph
 import DxModel.GraphCheck
-import DxModel.Layers.Shuffle
 import Driver.Proto
-import Driver.Render
+import Driver.Shuffle
 open Dx Dx.Proto
 
 namespace Dx.Drv
-
-/-! #### shuffle layers -/
-def rSName : Shuffle.SName → String
-  | .self => ""
-  | .stage s => s!"stage-{s}-"
-
-def rTuple (l : List Nat) : String := "(" ++ natList l ++ ")"
-
-def rShuffleKey : Shuffle.Key → String
-  | .dep i => s!"@d0:{i}"
-  | .out n j => s!"{rSName n}@self:{j}"
-  | .ssplit o i => s!"split-@self:{o}.{i}"
-  | .sgroup i => s!"group-@self:{i}"
-  | .split n idx inp => s!"split-{rSName n}@self:{idx}.{rTuple inp}"
-  | .group n inp => s!"group-{rSName n}@self:{rTuple inp}"
-  | .empty n inp => s!"group-{rSName n}@self:{rTuple inp}.'empty'"
-  | .rgroup n i => s!"repartition-group-{rSName n}@self:{i}"
-  | .partd => "zpartd-U@-:"
-  | .dwrite i => s!"shuffle-partition-U@-:{i}"
-  | .barrier => "barrier-U@-:"
-
-def shuffleParams (kv : List (String × String)) : Option Shuffle.Params :=
-  match getNat kv "nin", getNat kv "nout", getNats kv "parts", getBool kv "filtered",
-        getBool kv "ii", getNat kv "maxbranch", getNat kv "stages", getNat kv "nsplits" with
-  | some nin, some nout, some parts, some filtered, some ii, some mb, some st, some ns =>
-      some { nin := nin, nout := nout, parts := parts, filtered := filtered, ignoreIndex := ii,
-             maxBranch := mb, stages := st, nsplits := ns }
-  | _, _, _, _, _, _, _, _ => none
-
-def handleLayer (kind : String) (kv : List (String × String)) : String :=
-  match kind with
-  | "simpleshuffle" => match shuffleParams kv with
-      | some p => "G " ++ Render.graph rShuffleKey (Shuffle.simpleKeys p) (Shuffle.simpleTask p)
-      | none => "BAD params"
-  | "taskshuffle" => match shuffleParams kv with
-      | some p => "G " ++ Render.graph rShuffleKey (Shuffle.taskKeys p) (Shuffle.taskTask p)
-      | none => "BAD params"
-  | "diskshuffle" => match shuffleParams kv with
-      | some p => "G " ++ Render.graph rShuffleKey (Shuffle.diskKeys p) (Shuffle.diskTask p)
-      | none => "BAD params"
-  | _ => "BAD layer"
 
 /-! #### proven graph checker on real graphs: `check order g=0:;1:0;2:0,1` -/
 def parseListing (s : String) : Option (List (Nat × List Nat)) :=
@@ -60,41 +19,23 @@ def parseListing (s : String) : Option (List (Nat × List Nat)) :=
         | _, _ => none
     | _ => none)
 
-def mkRows (tgts : List Nat) : List Row :=
-  (List.range tgts.length).zip tgts |>.map (fun (i, t) => { idx := i, tgt := t, pay := i })
+def handleCore : List String → Option String
+  | "check" :: "order" :: rest => match (get (kvs rest) "g").bind parseListing with
+      | some l => some (if checkOrder l [] then "OK" else "FAIL")
+      | none => some "BAD listing"
+  | ["ping"] => some "pong"
+  | _ => none
 
-def rPays (rows : List Row) : String := "[" ++ joinWith "," (rows.map (fun r => toString r.pay)) ++ "]"
-
-def handleSpec (kind : String) (kv : List (String × String)) : String :=
-  match kind with
-  | "shufflegroup" =>
-    match getNats kv "tgts", getNat kv "stage", getNat kv "k", getNat kv "nin" with
-    | some tg, some stage, some k, some nin =>
-        joinWith ";" ((shuffleGroupSpec (mkRows tg) none stage k nin).map (fun (c, rows) => s!"{c}:{rPays rows}"))
-    | _, _, _, _ => "BAD params"
-  | "group2get" =>
-    match getNats kv "tgts", getNat kv "i" with
-    | some tg, some i => rPays (group2Get (mkRows tg) i)
-    | _, _ => "BAD params"
-  | _ => "BAD spec"
-
-def handleCheck (kind : String) (kv : List (String × String)) : String :=
-  match kind with
-  | "stagearith" => match getNat kv "nin", getNat kv "stages", getNat kv "nsplits" with
-      | some n, some st, some ns => if Shuffle.stageArithOK n st ns then "OK" else "FAIL"
-      | _, _, _ => "BAD params"
-  | "order" => match (get kv "g").bind parseListing with
-      | some l => if checkOrder l [] then "OK" else "FAIL"
-      | none => "BAD listing"
-  | _ => "BAD check"
+def handlers : List (List String → Option String) :=
+  [ handleCore
+  , Dx.Drv.Shuffle.handle
+  ]
 
 def handle (line : String) : String :=
-  match splitWords line with
-  | "layer" :: kind :: rest => handleLayer kind (kvs rest)
-  | "check" :: kind :: rest => handleCheck kind (kvs rest)
-  | "spec" :: kind :: rest => handleSpec kind (kvs rest)
-  | ["ping"] => "pong"
-  | _ => "BAD request"
+  let ws := splitWords line
+  match handlers.findSome? (fun h => h ws) with
+  | some r => r
+  | none => "BAD request"
 
 end Dx.Drv
 
